@@ -668,24 +668,31 @@ static uint32_t CodeHolder_hash_name_and_get_size(const char* name, size_t& name
 }
 
 Fixup* CodeHolder::new_fixup(LabelEntry& le, uint32_t section_id, size_t offset, intptr_t rel, const OffsetFormat& format) noexcept {
-  // Cannot be bound if we are creating a link.
-  ASMJIT_ASSERT(!le.is_bound());
-
   Fixup* link = _fixup_data_pool.alloc(_arena);
   if (ASMJIT_UNLIKELY(!link)) {
     return nullptr;
   }
 
-  link->next = le._get_fixups();
   link->section_id = section_id;
-  link->label_or_reloc_id = Globals::kInvalidId;
   link->offset = offset;
   link->rel = rel;
   link->format = format;
 
-  le._set_fixups(link);
-  _unresolved_fixup_count++;
+  if (le.is_bound()) {
+    // The label is already bound, but to a different section than the one that references it. The label entry stores
+    // its offset (not a list of fixups), so the fixup goes to the list of cross-section fixups, which are resolved by
+    // `resolve_cross_section_fixups()` once the sections have been laid out.
+    link->next = _fixups;
+    link->label_or_reloc_id = uint32_t(size_t(&le - _label_entries.data()));
+    _fixups = link;
+  }
+  else {
+    link->next = le._get_fixups();
+    link->label_or_reloc_id = Globals::kInvalidId;
+    le._set_fixups(link);
+  }
 
+  _unresolved_fixup_count++;
   return link;
 }
 
